@@ -19,7 +19,7 @@ fn group_index(name: &str) -> Option<usize> {
     None
 }
 
-fn lemma_r_on(b: &[u8]) {
+fn lemma_r_on(b: &[u8]) -> bool {
     let mut caps = [regex::generated::NONE; regex::generated::NSLOTS];
     let matched = regex::generated::search(b, &mut caps);
     let shape = ref_shape_end(b);
@@ -36,8 +36,7 @@ fn lemma_r_on(b: &[u8]) {
             k += 1;
         }
     }
-    kani::cover!(shape.is_some(), "well-formed input");
-    kani::cover!(shape.is_none(), "malformed input");
+    shape.is_some()
 }
 
 /// All byte strings of length 0..=LMAX (length symbolic, every byte symbolic).
@@ -45,7 +44,9 @@ pub fn lemma_r_upto<const LMAX: usize>() {
     let buf: [u8; LMAX] = kani::any();
     let n: usize = kani::any();
     kani::assume(n <= LMAX);
-    lemma_r_on(&buf[..n]);
+    let wf = lemma_r_on(&buf[..n]);
+    kani::cover!(wf, "well-formed input");
+    kani::cover!(!wf, "malformed input");
     kani::cover!(n == LMAX, "longest");
     kani::cover!(n >= 13 && buf[n - 1] == b'\n' && ref_shape_end(&buf[..n]).is_some(), "well-formed with CRLF");
 }
@@ -53,7 +54,9 @@ pub fn lemma_r_upto<const LMAX: usize>() {
 /// All byte strings of exactly L bytes.
 pub fn lemma_r_exact<const L: usize>() {
     let buf: [u8; L] = kani::any();
-    lemma_r_on(&buf);
+    let wf = lemma_r_on(&buf);
+    // (even lengths admit no well-formed text at all, so only the malformed side is a witness here)
+    kani::cover!(!wf, "malformed input");
 }
 
 // ---------------------------------------------------------------------------------- encoder
